@@ -510,6 +510,104 @@ pub fn run_check(replay: Option<Value>) -> i32 {
         Some(out)
     });
     rep.absorb(pouts.into_iter().flatten().collect());
+
+    // Jacobians whose columns are dominated by an off-diagonal entry ("lag" chains y0' = -y0,
+    // y_i' = k (y_{i-1} - y_i)): once the step has grown, the iteration matrices need row interchanges,
+    // whose fill-in lies outside the band.  Full and Banded storage must still agree bit for bit, and an
+    // accumulating mass routine (m[(i,j)] += .., finite-element style) must give the assigned one's result.
+    let ljobs: Vec<(usize, usize, usize, usize)> = (0..2usize).flat_map(|mi| [2usize, 3, 5, 8].into_iter().flat_map(move |n| (0..2usize).flat_map(move |ki| (0..2usize).map(move |ti| (mi, n, ki, ti))))).collect();
+    let louts = par_map(ljobs.len(), |q| {
+        let (mi, n, ki, ti) = ljobs[q];
+        let key = format!("lagchain:{}.{}.{}.{}", mi, n, ki, ti);
+        if let Some(o) = &only {
+            if *o != key {
+                return None;
+            }
+        }
+        let m = [Method::BDF, Method::RADAU][mi];
+        let k = [1000.0, 250.0][ki];
+        let tol = [1e-5, 1e-8][ti];
+        let mut b = vec![0.0; n * n];
+        b[0] = -1.0;
+        for i in 1..n {
+            b[i * n + i] = -k;
+            b[i * n + i - 1] = k;
+        }
+        let b2 = b.clone();
+        let b3 = b.clone();
+        let p = Prob {
+            name: format!("lag chain n={} k={}", n, k),
+            n,
+            f: Arc::new(move |_t, y, d| {
+                for i in 0..n {
+                    let mut s = 0.0;
+                    for j in 0..n {
+                        s += b2[i * n + j] * y[j];
+                    }
+                    d[i] = s;
+                }
+            }),
+            jac: Some(Arc::new(move |_t, _y| b3.clone())),
+            flow: None,
+            y0: (0..n).map(|i| 1.0 + 0.1 * i as f64).collect(),
+            linear_homogeneous: true,
+        };
+        let mut out = CaseOut::default();
+        let desc = json!({"key": key, "method": mname(m), "problem": p.name, "tol": tol});
+        let mut basel: Option<Solution> = None;
+        for js in [MatrixStorage::Full, MatrixStorage::Banded { ml: 1, mu: 0 }, MatrixStorage::Banded { ml: (n - 1).min(2), mu: 1 }] {
+            for mass_kind in 0..3usize {
+                // 0: no mass override; 1: assigned identity-like mass (diag 1); 2: the same mass accumulated with +=
+                if mass_kind > 0 && m != Method::RADAU {
+                    continue;
+                }
+                let mut c = Cfg::new(m, 0.0, 2.0, &p.y0).tol(tol, tol * 1e-2);
+                c.user_jac = true;
+                c.jac_storage = js.clone();
+                if mass_kind > 0 {
+                    c.mass_storage = MatrixStorage::Banded { ml: 0, mu: 0 };
+                }
+                let massf = move |mm: &mut Matrix| {
+                    for i in 0..n {
+                        if mass_kind == 1 {
+                            mm[(i, i)] = 1.0;
+                        } else {
+                            mm[(i, i)] += 1.0;
+                        }
+                    }
+                };
+                let r = run_with(&p, &c, None, if mass_kind > 0 { Some(&massf) } else { None });
+                out.events += r.st.n_ode;
+                match r.sol() {
+                    Some(s) if s.status == Status::Success => match &basel {
+                        None => basel = Some(s.clone()),
+                        Some(bs) => {
+                            let same = bits_eq(&s.t, &bs.t) && s.y.iter().zip(&bs.y).all(|(u, v)| bits_eq(u, v));
+                            if !same {
+                                out.violations.push(Violation::new(&key, "storage-dependence", format!("Jacobian {:?}, mass variant {}: trajectory differs from Full storage without a mass ({} vs {} samples)", js, ["none", "assigned", "accumulated"][mass_kind], s.t.len(), bs.t.len()), desc.clone()).with("mass", "lagchain").with("n", n));
+                            }
+                            out.validated += 1;
+                        }
+                    },
+                    _ => out.violations.push(Violation::new(&key, "outcome", format!("Jacobian {:?}, mass variant {}: run ended with {}", js, ["none", "assigned", "accumulated"][mass_kind], r.outcome_name()), desc.clone()).with("mass", "lagchain").with("n", n)),
+                }
+            }
+        }
+        out.tag("lag-chain");
+        let mut h = crate::util::Fp::default();
+        h.s(&key);
+        if let Some(bs) = &basel {
+            h.fs(bs.y.last().unwrap());
+            // several factorisations are needed for stale fill-in to matter
+            if bs.nlu >= 2 {
+                out.tag("lag-chain-refactorised");
+            }
+        }
+        out.fp = Some(h.as_u128());
+        out.sample = Some(desc);
+        Some(out)
+    });
+    rep.absorb(louts.into_iter().flatten().collect());
     if only.is_some() {
         for v in &rep.violations {
             println!("replay: VIOLATED [{}]: {}\n{}", v.sig["check"], v.msg, serde_json::to_string_pretty(&v.case).unwrap());
@@ -523,9 +621,9 @@ pub fn run_check(replay: Option<Value>) -> i32 {
     rep.dims = json!({"dimension": format!("1..={}", nmax), "mass_patterns": mass_patterns(4).iter().map(|p| p.name.clone()).collect::<Vec<_>>(),
         "jacobian_bands": "all (ml,mu) <= n-1 for n<=4; a fixed selection beyond", "mass_storages": "Full, Banded(exact fit), Banded(wider), Identity (identity pattern only)",
         "jacobian_storages": "Full, Banded(exact fit), Banded(wider)", "paths": ["solve_ivp Options", "RADAU::builder() defaults"], "methods": ["RADAU (mass)", "BDF (Jacobian storages)"]});
-    for t in ["storage-pair", "mass-vs-explicit", "dae-constraint", "default-mass", "dae-pivot"] {
+    for t in ["storage-pair", "mass-vs-explicit", "dae-constraint", "default-mass", "dae-pivot", "lag-chain-refactorised"] {
         rep.require(t, 10);
     }
-    rep.rule = "for every (dimension, mass pattern, Jacobian band pattern): all storage pairs holding the same entries must give bitwise identical trajectories (baseline Full/Full); M y'=f against y'=M^-1 f solved by Radau and DOP853 at 100x tighter tolerance; the algebraic residual of the index-1 DAE at every sample; index-1 DAEs with the algebraic row first (a row interchange in every real and complex factorisation) against their closed form, with a work budget; finite-difference vs analytic Jacobian; with no mass override every mass storage (including asymmetric bands) and the low-level builder defaults must reproduce y'=f bitwise; distinct = distinct (configuration, final state)".into();
+    rep.rule = "for every (dimension, mass pattern, Jacobian band pattern): all storage pairs holding the same entries must give bitwise identical trajectories (baseline Full/Full); M y'=f against y'=M^-1 f solved by Radau and DOP853 at 100x tighter tolerance; the algebraic residual of the index-1 DAE at every sample; index-1 DAEs with the algebraic row first (a row interchange in every real and complex factorisation) against their closed form, with a work budget; lag chains whose iteration matrices need row interchanges: Full vs Banded Jacobian and assigned vs accumulated (+=) unit mass bitwise; finite-difference vs analytic Jacobian; with no mass override every mass storage (including asymmetric bands) and the low-level builder defaults must reproduce y'=f bitwise; distinct = distinct (configuration, final state)".into();
     rep.finish()
 }
